@@ -41,6 +41,10 @@ func (r *Runner) RunHistory(histNo int, o HistOpts) error {
 	}
 	observe := func(b int) {
 		r.Count()
+		if !r.Cfg.Mem && (o.FilterEvery > 0 || o.GetAll) {
+			// the persisted inverted indexes are the ones the model derives from the stored documents
+			r.InvIxProj()
+		}
 		if hasText && !r.Cfg.Mem && o.Rank > 0 {
 			// the persisted text index is the one the model derives from the stored documents
 			r.TextIxProj()
